@@ -23,6 +23,15 @@ TOTAL_ENTRIES = {
             {"file": r"^src/fmt\.rs$", "name": r"fmt"},
             {"file": r"^src/bit_arr\.rs$", "name": r"from_str|from_str_radix"}],
     "C10": [{"file": r"^src/modular\.rs$", "name": r"reduce_mod|add_mod|mul_mod|pow_mod|inv_mod"}],
+    "C11": [{"file": r"^src/algorithms/mul_redc\.rs$", "name": r"mul_redc|square_redc"},
+            {"file": r"^src/modular\.rs$", "name": r"mul_redc|square_redc"}],
+    "C12": [{"file": r"^src/gcd\.rs$", "name": r"gcd|lcm|gcd_extended"},
+            {"file": r"^src/modular\.rs$", "name": r"inv_mod"},
+            {"file": r"^src/algorithms/gcd/mod\.rs$", "name": r"gcd|gcd_extended|inv_mod"},
+            {"file": r"^src/algorithms/gcd/matrix\.rs$", "name": r"from|from_u64|from_u64_prefix|from_u128_prefix|apply|apply_u128|compose"}],
+    "C14": [{"file": r"^src/algorithms/div/(mod|knuth|small|reciprocal)\.rs$",
+             "name": r"div|div_nxm|div_nxm_normalized|div_nx1|div_nx1_normalized|div_nx2|div_nx2_normalized|div_2x1_ref|"
+                     r"div_2x1_mg10|div_3x2_ref|div_3x2_mg10|reciprocal_ref|reciprocal_mg10|reciprocal_2_mg10"}],
     "C13": [{"file": r"^src/log\.rs$", "name": r"checked_log|checked_log2|checked_log10"},
             {"file": r"^src/pow\.rs$", "name": r"checked_pow|overflowing_pow|saturating_pow|wrapping_pow|pow"}],
     "C15": [{"file": r"^src/algorithms/(mul|add|ops|shift|mod)\.rs$",
